@@ -612,7 +612,12 @@ pub static C35: PropDef = PropDef {
                         if ok {
                             ctx.nontrivial(&src);
                         }
-                        ctx.outcome(if ok { "simplified" } else { "error" });
+                        if ok {
+                            let kept = Program::from_str(&src).ok().and_then(|p| p.simplify(&DefaultHandler).ok()).map(|s| (s.frames.len(), s.waveforms.len(), s.extern_pragma_map.to_instructions().len()));
+                            ctx.outcome(&format!("kept(frames,waveforms,externs)={kept:?}"));
+                        } else {
+                            ctx.outcome("error");
+                        }
                         for (clause, detail) in vs {
                             ctx.report(viol(&clause, format!("C35:{clause}"), json!({"program": src}), format!("{detail}; program: {}", src.replace('\n', "; "))));
                         }
